@@ -343,7 +343,7 @@ func C16(c *core.Ctx) {
 				return core.Same(r2, recv)
 			}
 			// explicit release on all paths, or a deferred release registered on all paths
-			okRel := core.MustFollow(fn, core.After(in), isRel, nil).OK
+			okRel := core.MustFollowDeep(fn, core.After(in), isRel, nil).OK
 			if !okRel {
 				core.Instrs(fn, func(x ssa.Instruction) {
 					d, isD := x.(*ssa.Defer)
